@@ -170,6 +170,8 @@ static void write_file(const uint8_t *d, size_t n)
 	fclose(f);
 }
 
+static char last_stat[64] = "-";
+
 int main(void)
 {
 	static char line[1 << 22];
@@ -250,12 +252,18 @@ int main(void)
 			ret = xp->read(*target, drv_nw == 3 ? &lg : 0);
 			ob_reset(); unsound = 0; put_forest(target->children, target, 0);
 			printf("R %s sound=%s | C %s | I code=%d curr=%u\n", ret < 0 ? "err" : "ok", unsound ? unsound : "ok", ob, ret, xp->curr());
+			snprintf(last_stat, sizeof(last_stat), "code=%d", ret);
+		}
+		else if (!strcmp(op, "stat") && drv_nw == 2) {
+			/* the return code of the last read: compared with the model */
+			printf("R ok | C %s\n", last_stat);
 		}
 		else if (!strcmp(op, "end") && drv_nw == 2) {
 			size_t now;
 			delete xp; xp = 0;
 			mpt_node_clear(target);
 			unlink(fname);
+			strcpy(last_stat, "-");
 			now = __sanitizer_get_current_allocated_bytes();
 			if (now != base_bytes && __lsan_do_recoverable_leak_check()) {
 				printf("FAULT leak bytes=%ld\n", (long) now - (long) base_bytes);
